@@ -57,6 +57,15 @@ Qed.
 Lemma take_all : forall (a : list N), take (length a) a = Ok a.
 Proof. intros a. rewrite <- (app_nil_r a) at 2. apply take_app. Qed.
 
+Lemma drop_err_app : forall (a k : list N), drop_err (length a) (a ++ k) = Ok k.
+Proof.
+  intros a k. unfold drop_err. rewrite app_length.
+  destruct (length a + length k <? length a)%nat eqn:E; [apply Nat.ltb_lt in E; lia|]. apply drop_app.
+Qed.
+
+Lemma drop_err_cons2 : forall x y (a k : list N), drop_err (2 + length a) (x :: y :: a ++ k) = Ok k.
+Proof. intros x y a k. apply (drop_err_app (x :: y :: a) k). Qed.
+
 Lemma firstn_app_len : forall (A : Type) (a b : list A), firstn (length a) (a ++ b) = a.
 Proof. intros. rewrite firstn_app, Nat.sub_diag, firstn_all. cbn. apply app_nil_r. Qed.
 Lemma skipn_app_len : forall (A : Type) (a b : list A), skipn (length a) (a ++ b) = b.
@@ -297,6 +306,23 @@ Proof.
   repeat (destruct H as [H|H]; [subst; reflexivity|]). subst. reflexivity.
 Qed.
 
+Lemma binop_expected : forall op, is_binop op = true -> xls_expected op = 0%nat /\ xlsb_expected op = 0%nat.
+Proof.
+  intros op H. apply binop_cases in H.
+  repeat (destruct H as [H|H]; [subst; split; reflexivity|]). subst. split; reflexivity.
+Qed.
+
+(* side condition of the decoders' operand pre-check on an encoded token *)
+Ltac len_tac :=
+  repeat match goal with k : cls |- _ => destruct k end;
+  repeat match goal with o : unop |- _ => destruct o end;
+  repeat match goal with b : bool |- _ => destruct b end;
+  try match goal with H : is_binop ?op = true |- _ =>
+        destruct (binop_expected op H) as [?E1 ?E2]; rewrite ?E1, ?E2 end;
+  unfold enc_str_xls, enc_str_xlsb;
+  cbn [cls_ptg unop_ptg xls_expected xlsb_expected le app length];
+  rewrite ?app_length, ?le_length; cbn [length]; lia.
+
 Lemma wf_cref_bounds : forall lim a, wf_cref lim a = true ->
   cr_row a < lim /\ cr_col a < 16384 /\ cfield a < 65536.
 Proof.
@@ -310,10 +336,13 @@ Section XlsTokens.
 Variable show_f64 : N -> list N.
 Variable env : xls_env.
 
-Lemma xls_run_S : forall f ptg rest s,
+Lemma xls_run_S : forall f ptg rest s, (xls_expected ptg <= length rest)%nat ->
   xls_run show_f64 env (S f) (ptg :: rest) s =
   do rs <- xls_step show_f64 env ptg rest s; xls_run show_f64 env f (fst rs) (snd rs).
-Proof. reflexivity. Qed.
+Proof.
+  intros f ptg rest s H. cbn [xls_run].
+  destruct (length rest <? xls_expected ptg)%nat eqn:E; [apply Nat.ltb_lt in E; lia|reflexivity].
+Qed.
 
 Lemma xls_step_binop : forall op rest s, is_binop op = true ->
   xls_step show_f64 env op rest s = arm_binop op rest s.
@@ -419,12 +448,12 @@ Proof.
     replace (length fl / 2)%nat with (length u)
       by (rewrite Hfl, Nat.mul_comm, Nat.div_mul by lia; reflexivity).
     rewrite Nat.min_id, <- Hfl, firstn_all.
-    cbn [drop Nat.add]. rewrite drop_app. cbn [obind].
+    rewrite drop_err_cons2. cbn [obind].
     unfold fl, u. rewrite decode_le2_units by exact Hch. reflexivity.
   - (* 8-bit characters *)
     change (N.testbit 0 0) with false. cbn iota.
     rewrite firstn_app_len, Nat.min_id, firstn_all.
-    cbn [drop Nat.add]. rewrite drop_app. cbn [obind].
+    rewrite drop_err_cons2. cbn [obind].
     rewrite decode_widen by exact Hch. reflexivity.
 Qed.
 
@@ -593,49 +622,49 @@ Proof.
     cbn [wf] in Hwf.
   - (* ERef *)
     unfold encode_xls. cbn [ntok Nat.add encode app]. rewrite <- app_assoc.
-    rewrite xls_run_S, xls_step_ref by exact Hwf. reflexivity.
+    rewrite xls_run_S by len_tac; rewrite xls_step_ref by exact Hwf. reflexivity.
   - (* EArea *)
     apply andb_prop in Hwf. destruct Hwf as [Ha Hb].
     unfold encode_xls. cbn [ntok Nat.add encode app]. rewrite <- !app_assoc.
-    rewrite xls_run_S, xls_step_area by assumption. reflexivity.
+    rewrite xls_run_S by len_tac; rewrite xls_step_area by assumption. reflexivity.
   - (* ERef3d *)
     apply andb_prop in Hwf. destruct Hwf as [Hwf Ha]. apply andb_prop in Hwf. destruct Hwf as [Hix _].
     apply N.ltb_lt in Hix.
     unfold encode_xls. cbn [ntok Nat.add encode app]. rewrite <- !app_assoc.
-    rewrite xls_run_S, xls_step_ref3d by assumption. reflexivity.
+    rewrite xls_run_S by len_tac; rewrite xls_step_ref3d by assumption. reflexivity.
   - (* EArea3d *)
     apply andb_prop in Hwf. destruct Hwf as [Hwf Hb]. apply andb_prop in Hwf. destruct Hwf as [Hwf Ha].
     apply andb_prop in Hwf. destruct Hwf as [Hix _]. apply N.ltb_lt in Hix.
     unfold encode_xls. cbn [ntok Nat.add encode app]. rewrite <- !app_assoc.
-    rewrite xls_run_S, xls_step_area3d by assumption. reflexivity.
+    rewrite xls_run_S by len_tac; rewrite xls_step_area3d by assumption. reflexivity.
   - (* EName *)
     apply andb_prop in Hwf. destruct Hwf as [Hwf H3]. apply andb_prop in Hwf. destruct Hwf as [H1 H2].
     apply N.leb_le in H1, H2. apply N.ltb_lt in H3.
     unfold encode_xls. cbn [ntok Nat.add encode app].
-    rewrite xls_run_S, xls_step_name by assumption. reflexivity.
+    rewrite xls_run_S by len_tac; rewrite xls_step_name by assumption. reflexivity.
   - (* EInt *)
     apply N.ltb_lt in Hwf. unfold encode_xls. cbn [ntok Nat.add encode app].
-    rewrite xls_run_S, xls_step_int by assumption. reflexivity.
+    rewrite xls_run_S by len_tac; rewrite xls_step_int by assumption. reflexivity.
   - (* ENum *)
     apply N.ltb_lt in Hwf. unfold encode_xls. cbn [ntok Nat.add encode app].
-    rewrite xls_run_S, xls_step_num by assumption. reflexivity.
+    rewrite xls_run_S by len_tac; rewrite xls_step_num by assumption. reflexivity.
   - (* EStr *)
     unfold encode_xls. cbn [ntok Nat.add encode app].
-    rewrite xls_run_S, xls_step_str by assumption. reflexivity.
+    rewrite xls_run_S by len_tac; rewrite xls_step_str by assumption. reflexivity.
   - (* EBool *)
-    unfold encode_xls. cbn [ntok Nat.add encode app]. rewrite xls_run_S, xls_step_bool.
+    unfold encode_xls. cbn [ntok Nat.add encode app]. rewrite xls_run_S by len_tac; rewrite xls_step_bool.
     destruct b; reflexivity.
   - (* EErr *)
     destruct (spec_err c) as [t|] eqn:Ht; [|discriminate].
-    unfold encode_xls. cbn [ntok Nat.add encode app]. rewrite xls_run_S, (@xls_step_err show_f64 env c t rest st buf Ht).
+    unfold encode_xls. cbn [ntok Nat.add encode app]. rewrite xls_run_S by len_tac; rewrite (@xls_step_err show_f64 env c t rest st buf Ht).
     unfold render_xls. cbn [render]. rewrite Ht. reflexivity.
   - (* EMissArg *)
-    unfold encode_xls. cbn [ntok Nat.add encode app]. rewrite xls_run_S.
+    unfold encode_xls. cbn [ntok Nat.add encode app]. rewrite xls_run_S by len_tac.
     unfold render_xls. cbn [render]. rewrite app_nil_r. reflexivity.
   - (* EUn *)
     specialize (IHe Hwf). unfold encode_xls. cbn [ntok encode]. fold encode_xls.
     rewrite <- app_assoc. replace (S (ntok e) + f)%nat with (ntok e + S f)%nat by lia.
-    rewrite IHe. cbn [app]. rewrite xls_run_S.
+    rewrite IHe. cbn [app]. rewrite xls_run_S by len_tac.
     destruct op; cbn [unop_ptg]; unfold xls_step; cbn [fst snd].
     + unfold arm_insert. cbn [fst snd]. rewrite insert_at_app. reflexivity.
     + unfold arm_insert. cbn [fst snd]. rewrite insert_at_app. reflexivity.
@@ -645,13 +674,13 @@ Proof.
     specialize (IHe1 Ha). specialize (IHe2 Hb).
     unfold encode_xls. cbn [ntok encode]. fold encode_xls.
     rewrite <- !app_assoc. replace (S (ntok e1 + ntok e2) + f)%nat with (ntok e1 + (ntok e2 + S f))%nat by lia.
-    rewrite IHe1, IHe2. cbn [app]. rewrite xls_run_S, xls_step_binop by exact Hop.
+    rewrite IHe1, IHe2. cbn [app]. rewrite xls_run_S by len_tac; rewrite xls_step_binop by exact Hop.
     unfold arm_binop. cbn [fst snd]. rewrite split_off_app. cbn [obind fst snd].
     rewrite (@binop_text_spec op Hop). unfold render_xls. cbn [render]. rewrite <- !app_assoc. reflexivity.
   - (* EParen *)
     specialize (IHe Hwf). unfold encode_xls. cbn [ntok encode]. fold encode_xls.
     rewrite <- app_assoc. replace (S (ntok e) + f)%nat with (ntok e + S f)%nat by lia.
-    rewrite IHe. cbn [app]. rewrite xls_run_S. unfold xls_step, arm_paren. cbn [fst snd].
+    rewrite IHe. cbn [app]. rewrite xls_run_S by len_tac. unfold xls_step, arm_paren. cbn [fst snd].
     rewrite insert_at_app. cbn [obind fst snd]. unfold render_xls. cbn [render].
     rewrite <- app_assoc. reflexivity.
   - (* EFunc *)
@@ -664,7 +693,7 @@ Proof.
     rewrite <- !app_assoc.
     replace (S (fold_right (fun a acc => ntok a + acc) 0 args) + f)%nat
       with (fold_right (fun a acc => ntok a + acc) 0 args + S f)%nat by lia.
-    rewrite good_list_xls by exact HG. cbn [app]. rewrite xls_run_S.
+    rewrite good_list_xls by exact HG. cbn [app]. rewrite xls_run_S by len_tac.
     destruct tables_ftab as (_ & EA & EL).
     rewrite <- (map_length rend args) in Hn.
     rewrite (@xls_step_func show_f64 env k i (map rend args) rest st buf (fname i)).
@@ -681,7 +710,7 @@ Proof.
     rewrite <- !app_assoc.
     replace (S (fold_right (fun a acc => ntok a + acc) 0 args) + f)%nat
       with (fold_right (fun a acc => ntok a + acc) 0 args + S f)%nat by lia.
-    rewrite good_list_xls by exact HG. cbn [app]. rewrite xls_run_S.
+    rewrite good_list_xls by exact HG. cbn [app]. rewrite xls_run_S by len_tac.
     rewrite <- (map_length rend args) in *.
     rewrite (@xls_step_funcvar show_f64 env k i (map rend args) rest st buf (fname i)).
     + unfold render_xls. cbn [render obind fst snd]. reflexivity.
@@ -691,14 +720,14 @@ Proof.
   - (* ESum *)
     specialize (IHe Hwf). unfold encode_xls. cbn [ntok encode]. fold encode_xls.
     rewrite <- app_assoc. replace (S (ntok e) + f)%nat with (ntok e + S f)%nat by lia.
-    rewrite IHe. cbn [app]. rewrite xls_run_S. unfold xls_step, xls_attr.
+    rewrite IHe. cbn [app]. rewrite xls_run_S by len_tac. unfold xls_step, xls_attr.
     cbn [byte_at skipn obind drop]. unfold arm_attrsum. cbn [fst snd].
     rewrite split_off_app. cbn [obind fst snd]. unfold render_xls. cbn [render].
     rewrite <- ?app_assoc. reflexivity.
   - (* EAttrSkip *)
     apply andb_prop in Hwf. destruct Hwf as [Hwf Ha]. apply andb_prop in Hwf. destruct Hwf as [He Hw].
     specialize (IHe Ha). unfold encode_xls. cbn [ntok encode]. fold encode_xls.
-    cbn [app]. rewrite <- app_assoc. cbn [Nat.add]. rewrite xls_run_S.
+    cbn [app]. rewrite <- app_assoc. cbn [Nat.add]. rewrite xls_run_S by len_tac.
     rewrite xls_step_attrskip by exact He. cbn [obind fst snd]. rewrite IHe.
     unfold render_xls. cbn [render]. reflexivity.
 Qed.
@@ -710,8 +739,10 @@ Theorem rpn_correct_xls : forall show_f64 env e,
   xls_parse_formula show_f64 env (frame_xls (encode_xls e)) = Ok (render_xls show_f64 env e).
 Proof.
   intros show_f64 env e Hwf Hlen. unfold xls_parse_formula, frame_xls.
-  cbn [le app u16_at skipn obind drop]. rewrite le2_eq by exact Hlen. cbn [obind].
-  rewrite Nat2N.id, take_all. cbn [obind].
+  cbn [le app length u16_at skipn obind drop].
+  assert (E1 : (S (S (length (encode_xls e))) <? 2)%nat = false) by (apply Nat.ltb_ge; lia).
+  rewrite E1. rewrite le2_eq by exact Hlen. cbn [obind].
+  rewrite Nat2N.id, Nat.ltb_irrefl, take_all. cbn [obind].
   pose proof (ntok_le_length 2 enc_str_xls e) as Hn. fold encode_xls in Hn.
   pose proof (@rpn_step_xls show_f64 env e Hwf) as HG. unfold good_xls in HG.
   specialize (HG (S (length (encode_xls e)) - ntok e)%nat [] [] []).
@@ -726,17 +757,22 @@ Qed.
 Section XlsbTokens.
 Variable show_f64 : N -> list N.
 Variable env : xlsb_env.
-Variable sub : list N -> outcome (list N).
 
-Lemma xlsb_run_S : forall f ptg rest s,
-  xlsb_run show_f64 env (S f) (ptg :: rest) s =
+Lemma xlsb_run_S : forall f d ptg rest s, (xlsb_expected ptg <= length rest)%nat ->
+  xlsb_run show_f64 env (S f) d (ptg :: rest) s =
   do rs <- xlsb_step show_f64 env
-             (fun inner => match inner with
+             (fun inner => if (MAX_FORMULA_DEPTH <=? d)%nat then Err E_DEPTH else
+                           match inner with
                            | [] => Ok []
-                           | _ => do s' <- xlsb_run show_f64 env f inner ([], []); xlsb_finish s'
+                           | _ => do s' <- xlsb_run show_f64 env f (S d) inner ([], []); xlsb_finish s'
                            end) ptg rest s;
-  xlsb_run show_f64 env f (fst rs) (snd rs).
-Proof. reflexivity. Qed.
+  xlsb_run show_f64 env f d (fst rs) (snd rs).
+Proof.
+  intros f d ptg rest s H. cbn [xlsb_run].
+  destruct (length rest <? xlsb_expected ptg)%nat eqn:E; [apply Nat.ltb_lt in E; lia|reflexivity].
+Qed.
+
+Variable sub : list N -> outcome (list N).
 
 Notation step := (xlsb_step show_f64 env sub).
 
@@ -844,7 +880,12 @@ Proof.
   destruct Hwf as [Hlen Hch]. apply N.ltb_lt in Hlen. rewrite quote_str_replace.
   unfold xlsb_step, xlsb_ptgstr, enc_str_xlsb. rewrite <- app_assoc.
   cbn [le app fst snd u16_at skipn obind drop]. rewrite le2_eq by exact Hlen. cbn [obind].
-  rewrite Nat2N.id. rewrite <- flat_le2_length. rewrite take_app, drop_app. cbn [obind].
+  rewrite Nat2N.id. rewrite <- flat_le2_length.
+  match goal with |- context [(length (?x ++ rest) <? _)%nat] =>
+    change x with (flat_map (le 2) (utf16_units s)) end.
+  assert (EL : (length (flat_map (le 2) (utf16_units s) ++ rest) <? length (flat_map (le 2) (utf16_units s)))%nat = false)
+    by (apply Nat.ltb_ge; rewrite app_length; lia).
+  rewrite EL. rewrite take_app, drop_app. cbn [obind].
   rewrite decode_le2_units by exact Hch. reflexivity.
 Qed.
 
@@ -902,8 +943,9 @@ End XlsbTokens.
 Section XlsbMain.
 Variable show_f64 : N -> list N.
 Variable env : xlsb_env.
+Variable d : nat.                        (* PtgMemFunc nesting depth: the AST has no PtgMemFunc *)
 
-Notation run := (xlsb_run show_f64 env).
+Notation run f := (xlsb_run show_f64 env f d).
 Notation rend := (render_xlsb show_f64 env).
 
 Definition good_xlsb (e : expr) : Prop :=
@@ -929,49 +971,49 @@ Proof.
     cbn [wf] in Hwf.
   - (* ERef *)
     unfold encode_xlsb. cbn [ntok Nat.add encode app]. rewrite <- app_assoc.
-    rewrite xlsb_run_S, xlsb_step_ref by exact Hwf. reflexivity.
+    rewrite xlsb_run_S by len_tac; rewrite xlsb_step_ref by exact Hwf. reflexivity.
   - (* EArea *)
     apply andb_prop in Hwf. destruct Hwf as [Ha Hb].
     unfold encode_xlsb. cbn [ntok Nat.add encode app]. rewrite <- !app_assoc.
-    rewrite xlsb_run_S, xlsb_step_area by assumption. reflexivity.
+    rewrite xlsb_run_S by len_tac; rewrite xlsb_step_area by assumption. reflexivity.
   - (* ERef3d *)
     apply andb_prop in Hwf. destruct Hwf as [Hwf Ha]. apply andb_prop in Hwf. destruct Hwf as [Hix Hsh].
     apply N.ltb_lt in Hix, Hsh.
     unfold encode_xlsb. cbn [ntok Nat.add encode app]. rewrite <- !app_assoc.
-    rewrite xlsb_run_S, xlsb_step_ref3d by assumption. reflexivity.
+    rewrite xlsb_run_S by len_tac; rewrite xlsb_step_ref3d by assumption. reflexivity.
   - (* EArea3d *)
     apply andb_prop in Hwf. destruct Hwf as [Hwf Hb]. apply andb_prop in Hwf. destruct Hwf as [Hwf Ha].
     apply andb_prop in Hwf. destruct Hwf as [Hix Hsh]. apply N.ltb_lt in Hix, Hsh.
     unfold encode_xlsb. cbn [ntok Nat.add encode app]. rewrite <- !app_assoc.
-    rewrite xlsb_run_S, xlsb_step_area3d by assumption. reflexivity.
+    rewrite xlsb_run_S by len_tac; rewrite xlsb_step_area3d by assumption. reflexivity.
   - (* EName *)
     apply andb_prop in Hwf. destruct Hwf as [Hwf H3]. apply andb_prop in Hwf. destruct Hwf as [H1 H2].
     apply N.leb_le in H1, H2. apply N.ltb_lt in H3.
     unfold encode_xlsb. cbn [ntok Nat.add encode app].
-    rewrite xlsb_run_S, xlsb_step_name by assumption. reflexivity.
+    rewrite xlsb_run_S by len_tac; rewrite xlsb_step_name by assumption. reflexivity.
   - (* EInt *)
     apply N.ltb_lt in Hwf. unfold encode_xlsb. cbn [ntok Nat.add encode app].
-    rewrite xlsb_run_S, xlsb_step_int by assumption. reflexivity.
+    rewrite xlsb_run_S by len_tac; rewrite xlsb_step_int by assumption. reflexivity.
   - (* ENum *)
     apply N.ltb_lt in Hwf. unfold encode_xlsb. cbn [ntok Nat.add encode app].
-    rewrite xlsb_run_S, xlsb_step_num by assumption. reflexivity.
+    rewrite xlsb_run_S by len_tac; rewrite xlsb_step_num by assumption. reflexivity.
   - (* EStr *)
     unfold encode_xlsb. cbn [ntok Nat.add encode app].
-    rewrite xlsb_run_S, xlsb_step_str by assumption. reflexivity.
+    rewrite xlsb_run_S by len_tac; rewrite xlsb_step_str by assumption. reflexivity.
   - (* EBool *)
-    unfold encode_xlsb. cbn [ntok Nat.add encode app]. rewrite xlsb_run_S, xlsb_step_bool.
+    unfold encode_xlsb. cbn [ntok Nat.add encode app]. rewrite xlsb_run_S by len_tac; rewrite xlsb_step_bool.
     destruct b; reflexivity.
   - (* EErr *)
     destruct (spec_err c) as [t|] eqn:Ht; [|discriminate].
-    unfold encode_xlsb. cbn [ntok Nat.add encode app]. rewrite xlsb_run_S, (@xlsb_step_err show_f64 env _ c t rest st buf Ht).
+    unfold encode_xlsb. cbn [ntok Nat.add encode app]. rewrite xlsb_run_S by len_tac; rewrite (@xlsb_step_err show_f64 env _ c t rest st buf Ht).
     unfold render_xlsb. cbn [render]. rewrite Ht. reflexivity.
   - (* EMissArg *)
-    unfold encode_xlsb. cbn [ntok Nat.add encode app]. rewrite xlsb_run_S.
+    unfold encode_xlsb. cbn [ntok Nat.add encode app]. rewrite xlsb_run_S by len_tac.
     unfold render_xlsb. cbn [render]. rewrite app_nil_r. reflexivity.
   - (* EUn *)
     specialize (IHe Hwf). unfold encode_xlsb. cbn [ntok encode]. fold encode_xlsb.
     rewrite <- app_assoc. replace (S (ntok e) + f)%nat with (ntok e + S f)%nat by lia.
-    rewrite IHe. cbn [app]. rewrite xlsb_run_S.
+    rewrite IHe. cbn [app]. rewrite xlsb_run_S by len_tac.
     destruct op; cbn [unop_ptg]; unfold xlsb_step; cbn [fst snd].
     + unfold arm_insert. cbn [fst snd]. rewrite insert_at_app. reflexivity.
     + unfold arm_insert. cbn [fst snd]. rewrite insert_at_app. reflexivity.
@@ -981,13 +1023,13 @@ Proof.
     specialize (IHe1 Ha). specialize (IHe2 Hb).
     unfold encode_xlsb. cbn [ntok encode]. fold encode_xlsb.
     rewrite <- !app_assoc. replace (S (ntok e1 + ntok e2) + f)%nat with (ntok e1 + (ntok e2 + S f))%nat by lia.
-    rewrite IHe1, IHe2. cbn [app]. rewrite xlsb_run_S, xlsb_step_binop by exact Hop.
+    rewrite IHe1, IHe2. cbn [app]. rewrite xlsb_run_S by len_tac; rewrite xlsb_step_binop by exact Hop.
     unfold arm_binop. cbn [fst snd]. rewrite split_off_app. cbn [obind fst snd].
     rewrite (@binop_text_spec op Hop). unfold render_xlsb. cbn [render]. rewrite <- !app_assoc. reflexivity.
   - (* EParen *)
     specialize (IHe Hwf). unfold encode_xlsb. cbn [ntok encode]. fold encode_xlsb.
     rewrite <- app_assoc. replace (S (ntok e) + f)%nat with (ntok e + S f)%nat by lia.
-    rewrite IHe. cbn [app]. rewrite xlsb_run_S. unfold xlsb_step, arm_paren. cbn [fst snd].
+    rewrite IHe. cbn [app]. rewrite xlsb_run_S by len_tac. unfold xlsb_step, arm_paren. cbn [fst snd].
     rewrite insert_at_app. cbn [obind fst snd]. unfold render_xlsb. cbn [render].
     rewrite <- app_assoc. reflexivity.
   - (* EFunc *)
@@ -1000,7 +1042,7 @@ Proof.
     rewrite <- !app_assoc.
     replace (S (fold_right (fun a acc => ntok a + acc) 0 args) + f)%nat
       with (fold_right (fun a acc => ntok a + acc) 0 args + S f)%nat by lia.
-    rewrite good_list_xlsb by exact HG. cbn [app]. rewrite xlsb_run_S.
+    rewrite good_list_xlsb by exact HG. cbn [app]. rewrite xlsb_run_S by len_tac.
     destruct tables_ftab as (_ & EA & EL).
     rewrite <- (map_length rend args) in Hn.
     rewrite (@xlsb_step_func show_f64 env _ k i (map rend args) rest st buf (fname i)).
@@ -1017,7 +1059,7 @@ Proof.
     rewrite <- !app_assoc.
     replace (S (fold_right (fun a acc => ntok a + acc) 0 args) + f)%nat
       with (fold_right (fun a acc => ntok a + acc) 0 args + S f)%nat by lia.
-    rewrite good_list_xlsb by exact HG. cbn [app]. rewrite xlsb_run_S.
+    rewrite good_list_xlsb by exact HG. cbn [app]. rewrite xlsb_run_S by len_tac.
     rewrite <- (map_length rend args) in *.
     rewrite (@xlsb_step_funcvar show_f64 env _ k i (map rend args) rest st buf (fname i)).
     + unfold render_xlsb. cbn [render obind fst snd]. reflexivity.
@@ -1027,14 +1069,14 @@ Proof.
   - (* ESum *)
     specialize (IHe Hwf). unfold encode_xlsb. cbn [ntok encode]. fold encode_xlsb.
     rewrite <- app_assoc. replace (S (ntok e) + f)%nat with (ntok e + S f)%nat by lia.
-    rewrite IHe. cbn [app]. rewrite xlsb_run_S. unfold xlsb_step, xlsb_attr.
+    rewrite IHe. cbn [app]. rewrite xlsb_run_S by len_tac. unfold xlsb_step, xlsb_attr.
     cbn [byte_at skipn obind drop]. unfold arm_attrsum. cbn [fst snd].
     rewrite split_off_app. cbn [obind fst snd]. unfold render_xlsb. cbn [render].
     rewrite <- ?app_assoc. reflexivity.
   - (* EAttrSkip *)
     apply andb_prop in Hwf. destruct Hwf as [Hwf Ha]. apply andb_prop in Hwf. destruct Hwf as [He Hw].
     specialize (IHe Ha). unfold encode_xlsb. cbn [ntok encode]. fold encode_xlsb.
-    cbn [app]. rewrite <- app_assoc. cbn [Nat.add]. rewrite xlsb_run_S.
+    cbn [app]. rewrite <- app_assoc. cbn [Nat.add]. rewrite xlsb_run_S by len_tac.
     rewrite xlsb_step_attrskip by exact He. cbn [obind fst snd]. rewrite IHe.
     unfold render_xlsb. cbn [render]. reflexivity.
 Qed.
@@ -1049,7 +1091,7 @@ Proof.
   pose proof (ntok_le_length 4 enc_str_xlsb e) as Hn. fold encode_xlsb in Hn.
   assert (Hpos : (1 <= ntok e)%nat) by (destruct e; cbn [ntok]; lia).
   destruct (encode_xlsb e) as [|b0 bs] eqn:Eenc; [cbn [length] in Hn; lia|]. rewrite <- Eenc in *.
-  pose proof (@rpn_step_xlsb show_f64 env e Hwf) as HG. unfold good_xlsb in HG.
+  pose proof (@rpn_step_xlsb show_f64 env 0%nat e Hwf) as HG. unfold good_xlsb in HG.
   specialize (HG (S (length (encode_xlsb e)) - ntok e)%nat [] [] []).
   rewrite app_nil_r in HG.
   replace (ntok e + (S (length (encode_xlsb e)) - ntok e))%nat with (S (length (encode_xlsb e))) in HG by lia.
